@@ -788,6 +788,10 @@ def check_positional_order(ctx, rule, module_names):
                 fi = ctx.P.functions.get(q)
                 if fi is None or fi.module.name != mn:
                     continue
+                if fi.name.startswith("_") and not fi.name.endswith("__"):
+                    # a private helper: the calls that reach it are the package's own, and the interpreter binds each of
+                    # them against the signature as it stands (producer and consumers may change together)
+                    continue
                 cur = fi.params
             n += 1
             for i, name in enumerate(cur):
@@ -894,6 +898,31 @@ def check_super_forwarding(ctx, rule, module_names):
                     for p in mine:
                         if p in pparams + parent.kwonly and p not in covered:
                             dropped.append(f"{ci.name}.{name}: `{p}` is accepted but not passed to super().{name}(...) at line {call.lineno}")
+        # the same for a function that hands its work to itself (an array branch calling itself per element): an optional
+        # parameter it reads and does not pass on is the default in the inner call, whatever the caller gave
+        for fi in list(m.functions.values()) + [f_ for ci in m.classes.values() for f_ in ci.methods.values()]:
+            dflt = fi.defaults()
+            if not dflt:
+                continue
+            for call in ast.walk(fi.node):
+                if not isinstance(call, ast.Call):
+                    continue
+                f_ = call.func
+                if fi.cls is None:
+                    hit = isinstance(f_, ast.Name) and f_.id == fi.name
+                else:
+                    hit = isinstance(f_, ast.Attribute) and f_.attr == fi.name and isinstance(f_.value, ast.Name) and f_.value.id in ("self", "cls")
+                if not hit:
+                    continue
+                n += 1
+                if any(isinstance(a, ast.Starred) for a in call.args) or any(k.arg is None for k in call.keywords):
+                    continue
+                order = [p for p in fi.params if not (fi.cls is not None and p in ("self", "cls"))]
+                covered = set(order[: len(call.args)]) | {k.arg for k in call.keywords}
+                read = {x.id for x in ast.walk(fi.node) if isinstance(x, ast.Name) and isinstance(x.ctx, ast.Load)}
+                for p in order + fi.kwonly:
+                    if p in dflt and p not in covered and p in read:
+                        dropped.append(f"{fi.name}: `{p}` is accepted but not passed on in the call to itself at line {call.lineno}")
         ctx.check(
             not dropped, rule, f"{mn}:overrides forward what they accept", m.relpath,
             "an override that delegates to the overridden method passes on every parameter the two share",
